@@ -21,12 +21,13 @@ import (
 )
 
 type ServiceParams struct {
-	MaxServices int  // per file
-	MaxFuncs    int  // per service
+	MaxServices int // per file
+	MaxFuncs    int // per service
 	MaxArgs     int
 	MaxThrows   int
 	Collide     bool // use names that collide with Go keywords / generated identifiers
 	TypeDepth   int  // container nesting of argument / return types
+	Homonyms    bool // same-named services in different files, extended by qualified name (needs >= 2 files)
 }
 
 func DefaultServiceParams() ServiceParams {
@@ -154,6 +155,9 @@ func AddServices(r *rng.R, p *Program, sp ServiceParams) {
 			g.genService(f, sp, k)
 		}
 	}
+	if sp.Homonyms {
+		g.addHomonyms(sp)
+	}
 }
 
 func (g *gen) visServices() []*Service {
@@ -203,18 +207,34 @@ func (g *gen) newException(f *File) *Struct {
 }
 
 func (g *gen) genService(f *File, sp ServiceParams, k int) {
+	g.genServiceWith(f, sp, "", "", nil, true)
+}
+
+// genServiceWith: name "" = fresh name; extends "" + mayExtend = random visible base or none; used (when
+// given) is a set of Go-canonical function names shared with other services that must stay distinct.
+func (g *gen) genServiceWith(f *File, sp ServiceParams, name, extends string, used map[string]bool, mayExtend bool) *Service {
 	r := g.r
+	g.cur = f
 	for len(g.visExceptionTypes()) < 2 {
 		g.newException(f)
 	}
-	name := g.fresh("Svc")
-	if sp.Collide && r.Chance(1, 4) {
-		name = rng.Pick(r, []string{"NewSvc", "Client", "Processor", "FooArgs", "BarResult", "Handler"}) + fmt.Sprint(g.counter)
+	if name == "" {
+		name = g.fresh("Svc")
+		if sp.Collide && r.Chance(1, 4) {
+			name = rng.Pick(r, []string{"NewSvc", "Client", "Processor", "FooArgs", "BarResult", "Handler"}) + fmt.Sprint(g.counter)
+		}
 	}
 	sv := &Service{File: f.Name, Name: name}
-	used := map[string]bool{}
-	if bases := g.visServices(); len(bases) > 0 && r.Chance(3, 5) {
-		base := rng.Pick(r, bases)
+	if used == nil {
+		used = map[string]bool{}
+	}
+	var base *Service
+	if extends != "" {
+		base = g.prog.Service(extends)
+	} else if bases := g.visServices(); mayExtend && len(bases) > 0 && r.Chance(3, 5) {
+		base = rng.Pick(r, bases)
+	}
+	if base != nil {
 		sv.Extends = base.QName()
 		for _, b := range g.prog.Chain(base) {
 			for _, fn := range b.Functions {
@@ -251,6 +271,64 @@ func (g *gen) genService(f *File, sp ServiceParams, k int) {
 		sv.Functions = append(sv.Functions, g.genFunction(sp, caseTwin))
 	}
 	f.Defs = append(f.Defs, &Def{Service: sv})
+	return sv
+}
+
+// addHomonyms: services with the same bare name ("Common") in different files, and services of the
+// main file that extend one of them by qualified name — the homonym included earlier and the one
+// included later, optionally with a local service of that name as well. Function names are pairwise
+// distinct over the whole group, so dispatching to the wrong "Common" cannot go unnoticed.
+func (g *gen) addHomonyms(sp ServiceParams) {
+	r := g.r
+	p := g.prog
+	if len(p.Files) < 2 {
+		return
+	}
+	main := p.Files[0]
+	var incs []*File
+	if len(p.Files) >= 3 {
+		for _, f := range p.Files[1:3] {
+			if !contains(main.Includes, f.Name) {
+				main.Includes = append(main.Includes, f.Name)
+			}
+		}
+		if r.Bool() { // which homonym is included first varies
+			for i, j := 0, len(main.Includes)-1; i < j; i, j = i+1, j-1 {
+				main.Includes[i], main.Includes[j] = main.Includes[j], main.Includes[i]
+			}
+		}
+	}
+	byName := map[string]*File{}
+	for _, f := range p.Files {
+		byName[f.Name] = f
+	}
+	vis := []*File{main}
+	for _, inc := range main.Includes {
+		vis = append(vis, byName[inc])
+		incs = append(incs, byName[inc])
+	}
+	g.visible[main.Name] = vis
+	used := map[string]bool{}
+	for _, f := range p.Files { // keep clear of every existing function name, too
+		for _, d := range f.Defs {
+			if d.Service != nil {
+				for _, fn := range d.Service.Functions {
+					used[goCanon(fn.Name)] = true
+				}
+			}
+		}
+	}
+	const bare = "Common"
+	var commons []*Service
+	for _, f := range incs {
+		commons = append(commons, g.genServiceWith(f, sp, bare, "", used, false))
+	}
+	if len(incs) == 1 || r.Bool() {
+		g.genServiceWith(main, sp, bare, "", used, false) // a local service with that name; the bases below stay qualified
+	}
+	for _, c := range commons {
+		g.genServiceWith(main, sp, g.fresh("App"), c.QName(), used, false)
+	}
 }
 
 func (g *gen) genFunction(sp ServiceParams, name string) *Function {
@@ -413,6 +491,12 @@ func (p *Program) CoqServices() string {
 func (p *Program) ServiceStats(h map[string]int) {
 	for _, s := range p.Services() {
 		h["services"]++
+		if s.Name == "Common" {
+			h["homonym_services"]++
+		}
+		if b := p.Service(s.Extends); b != nil && b.Name == "Common" {
+			h["extends_homonym"]++
+		}
 		if s.Extends != "" {
 			h["extends"]++
 			if strings.SplitN(s.Extends, ".", 2)[0] != s.File {
